@@ -7,6 +7,12 @@ HERE = os.path.dirname(os.path.dirname(os.path.abspath(__file__)))
 
 # id -> (engine, technique, level text, level note, design ref)
 CHECKS = {
+    "C17": ("XH", "CrossHair-driven exhaustive enumeration (z3 choice variables) of wrapper chains x request arguments x derivation histories; real connection classes against a recording opener, "
+            "compared with a reference request builder",
+            "bounded exhaustive exploration with exhaustion certificate: chains of <= 3 wrappers, a covering set of argument combinations (full product in thorough), histories of <= 3 derivation steps; "
+            "non-interference asserted by re-sending through every earlier connection/caller after each step",
+            "structural property: the solver enumerates; urllib Request trusted; opener stubbed by a recorder",
+            "DESIGN.md 3/C17"),
     "C15": ("XH", "CrossHair symbolic execution of the real filter builder + SqlMethod over symbolic operands/table cells, mini 3VL evaluator of the emitted SQL as DB stub, replay on real sqlite3",
             "bounded model checking: per condition-tree shape, ALL int operands/cells and all strings up to the length bound are covered by exhausted path trees; "
             "text-independence, placeholder/parameter agreement and row selection are asserted on every path; counterexamples are replayed on real in-memory sqlite3",
